@@ -156,7 +156,7 @@ def run_check(prop, tier, seed, replay=None):
         reqs = [json.load(open(replay))["request"]]
     else:
         reqs = list(prop.corpus())
-        deadline = t0 + budget
+        deadline = time.time() + budget      # (the budget covers case generation, not the Lean build/audit)
         for r in prop.cases(rng, tier):
             reqs.append(r)
             if time.time() > deadline:
